@@ -301,6 +301,7 @@ var sqlOf = map[string]string{
 	"AV":  "ALTER TABLE v ADD x;",
 	"RV":  "ALTER TABLE v RENAME w TO ww;",
 	"IS":  "INSERT INTO STDIN VALUES ('k9', 'i');",
+	"DJ":  "DELETE t1, t2 FROM t1 LEFT JOIN t2 ON t1.a = t2.a WHERE t1.a = 2;",
 	"US":  "UPDATE STDIN SET s = 'u' WHERE k = 'k1';",
 	"CLX": "CREATE TABLE `m.ltsv` (k, v) AS SELECT 1, 'a\\tb';",
 	// terminators
@@ -542,6 +543,10 @@ func (r *runner) stmt(n *Node) *stop {
 		update(t1, "a", "1", "b", "u")
 	case "D1":
 		del(t1, "a", "2")
+	case "DJ":
+		// two target tables: t1 loses the record a = 2 (if it is there), t2 holds no record joined to it and loses none
+		del(t1, "a", "2")
+		del(t2, "a", "2")
 	case "R1":
 		a, b := t1.Work.col("a"), t1.Work.col("b")
 		found := false
